@@ -377,6 +377,12 @@ func judge(c *pcase) (v verdict) {
 			case s1.skip != "":
 				v.class("spv-skip:after:" + firstWords(s1.skip, 3))
 			case s1.trap != "":
+				if lazy && strings.HasPrefix(s1.trap, "use of %") && strings.Contains(s1.trap, "before its definition") && hasKnownUnemitted(cur, c.Passes, ssa) {
+					// open finding C13-1 / C13-6 again: an expression left outside every Emit is materialised by
+					// the SPIR-V backend at its first use, in a block that need not dominate the later uses
+					v.skip = "known:unemitted-expression(spirv-places-it-at-first-use)"
+					return v
+				}
 				v.ok, v.msg = false, fmt.Sprintf("after %v the SPIR-V of the module traps (%s); the SPIR-V of the original module runs", c.Passes, s1.trap)
 				return v
 			case s1.pois:
@@ -576,6 +582,22 @@ func isLocalVarExpr(f *ir.Function, h ir.ExpressionHandle) bool {
 func typeInArena(m *ir.Module, in ir.TypeInner) bool {
 	for i := range m.Types {
 		if irx.InnersEqual(m, m.Types[i].Inner, in) {
+			return true
+		}
+	}
+	return false
+}
+
+// hasKnownUnemitted reports whether the module has an expression outside every Emit whose shape is that of an
+// open finding (C13-1, C13-6).
+func hasKnownUnemitted(m *ir.Module, passes []string, ssa bool) (found bool) {
+	defer func() { _ = recover() }()
+	for _, is := range irx.StrictValidateOpts(m, irx.Options{SSA: ssa}) {
+		if is.Rule != irx.RuleEmitMissing && is.Rule != irx.RuleExprOrder {
+			continue
+		}
+		switch knownShape(m, is, passes) {
+		case "c13-inline-callresult-load-unemitted", "c13-dce-drops-emit-of-live-expression":
 			return true
 		}
 	}
